@@ -141,38 +141,43 @@ DoInputImplementation(AbstractGatewayMessageReceiver & receiver, uint32 maxBytes
       {
          // Minimum-chunk-size mode:  we read bytes directly into the Message's data field until it is full, then
          // forward that message on to the user code and start the next.  Advantage of this is:  no data-copying necessary!
-         if (_recvMsgRef() == NULL)
+         // Note:  this is a loop rather than recursion, so that a long run of small chunks can't overflow the stack.
+         io_status_t totalBytesRead;
+         while(true)
          {
-            MessageRef newMsg = GetMessageFromPool(PR_COMMAND_RAW_DATA);
-            MRETURN_ON_ERROR(newMsg);
-            MRETURN_ON_ERROR(newMsg()->AddData(        PR_NAME_DATA_CHUNKS, B_RAW_TYPE, NULL,      _minChunkSize));
+            if (_recvMsgRef() == NULL)
+            {
+               MessageRef newMsg = GetMessageFromPool(PR_COMMAND_RAW_DATA);
+               MRETURN_ON_ERROR(newMsg);
+               MRETURN_ON_ERROR(newMsg()->AddData(        PR_NAME_DATA_CHUNKS, B_RAW_TYPE, NULL,      _minChunkSize));
 
-            uint32 temp = 0;
-            MRETURN_ON_ERROR(newMsg()->FindDataPointer(PR_NAME_DATA_CHUNKS, B_RAW_TYPE, &_recvBuf, &temp));
-            _recvBufLength = temp;
+               uint32 temp = 0;
+               MRETURN_ON_ERROR(newMsg()->FindDataPointer(PR_NAME_DATA_CHUNKS, B_RAW_TYPE, &_recvBuf, &temp));
+               _recvBufLength = temp;
 
-            _recvBufByteOffset = 0;
-            _recvMsgRef        = std_move_if_available(newMsg);
-         }
+               _recvBufByteOffset = 0;
+               _recvMsgRef        = std_move_if_available(newMsg);
+            }
 
-         const io_status_t bytesRead = GetDataIO()() ? GetDataIO()()->Read(&((char*)_recvBuf)[_recvBufByteOffset], muscleMin(maxBytes, (uint32)(_recvBufLength-_recvBufByteOffset))) : io_status_t(B_BAD_OBJECT);
-         MRETURN_ON_ERROR(bytesRead);
+            const io_status_t bytesRead = GetDataIO()() ? GetDataIO()()->Read(&((char*)_recvBuf)[_recvBufByteOffset], muscleMin(maxBytes, (uint32)(_recvBufLength-_recvBufByteOffset))) : io_status_t(B_BAD_OBJECT);
+            MRETURN_ON_ERROR(bytesRead);
+            if (bytesRead.GetByteCount() <= 0) break;
 
-         if (bytesRead.GetByteCount() > 0)
-         {
             if ((GetReceiveTimestampingEnabled())&&(_recvBufByteOffset == 0)) MRETURN_ON_ERROR(_recvMsgRef()->AddInt64(PR_NAME_DATA_TIMESTAMP, GetRunTime64()));
 
-            _recvBufByteOffset += bytesRead.GetByteCount();
-            if (_recvBufByteOffset == _recvBufLength)
-            {
-               // This buffer is full... forward it on to the user, and start receiving the next one.
-               CallMessageReceivedFromGateway(receiver, _recvMsgRef);
-               _recvMsgRef.Reset();
+            totalBytesRead += bytesRead;
+            maxBytes -= bytesRead.GetByteCount();
 
-               return bytesRead+(IsSuggestedTimeSliceExpired() ? io_status_t() : DoInputImplementation(receiver, maxBytes-bytesRead.GetByteCount()));
-            }
+            _recvBufByteOffset += bytesRead.GetByteCount();
+            if (_recvBufByteOffset < _recvBufLength) break;
+
+            // This buffer is full... forward it on to the user, and start receiving the next one.
+            CallMessageReceivedFromGateway(receiver, _recvMsgRef);
+            _recvMsgRef.Reset();
+
+            if (IsSuggestedTimeSliceExpired()) break;
          }
-         return bytesRead;
+         return totalBytesRead;
       }
       else
       {
